@@ -69,3 +69,14 @@ def run_http(ck):
         worst = min(b2, key=lambda c: (len(c["ops"]), len(c["reqs"])))
         ck.violation({"property": "C02", "kind": "model/implementation disagree on an HTTP script", "case": worst}, no_input=True)
     ic.coverage_level2(ck, res)
+    soak = ic.run_soak(ck, "C02")
+    if soak is not None:
+        bad2 = sorted(set(soak["v2"]) | set(c["id"] for c in soak["nontab"]))
+        ck.obligation("soak TEST (real timers, concurrent clients): every observed block is a table of distinct submitted rows", not bad2 and not soak["broken"],
+                      "violating runs: %s %s" % (bad2, [c["err"] for c in soak["broken"]][:2]))
+        if bad2:
+            c = soak["byid"][bad2[0]]
+            blocks = [e for l in (c.get("obs") or []) for e in (l or []) if e["t"] == "send" and (not ic.block_is_table(e) or len(set(e.get("rids") or [])) != len(e.get("rids") or []))]
+            ck.violation({"property": "C02", "kind": "soak test: a block is not a table of distinct submitted rows",
+                          "blocks": blocks[:3], "case": {"id": c["id"], "reqs": [{"route": r["route"], "items": r["items"]} for r in c["reqs"]]},
+                          "replay": "harness ingest --level 3 --seed <seed> --n <n> (timing dependent)"})
